@@ -39,6 +39,16 @@ fn string_strategy() -> impl Strategy<Value = String> {
         2 => Just(String::new()),
         4 => "\\PC{0,24}",
         3 => any::<String>(),
+        // long strings: plain runs of 200..5000 characters around the powers of two (a serialiser hands
+        // a long unescaped run to the writer in one piece), with and without an escape in the middle
+        1 => (prop::sample::select(vec![200usize, 254, 255, 256, 257, 511, 512, 513, 1023, 1024, 1025, 2048, 4095, 4096, 5000]), prop::sample::select(vec!['a', 'Z', ' ', '\u{e9}', '\u{20ac}']), prop::option::of(prop::sample::select(vec!['"', '\\', '\n', '\0'])), 0usize..5000).prop_map(|(n, ch, esc, at)| {
+            let mut v: Vec<char> = std::iter::repeat(ch).take(n).collect();
+            if let Some(e) = esc {
+                let i = at % n;
+                v[i] = e;
+            }
+            v.into_iter().collect()
+        }),
         2 => proptest::collection::vec(prop_oneof![Just('\0'), Just('"'), Just('\\'), Just('/'), Just('\n'), Just('\u{7f}'), Just('\u{d7ff}'), Just('\u{e000}'), Just('\u{ffff}'), Just('\u{10000}'), Just('\u{10ffff}'), Just('\u{2028}'), Just('a')], 0..12).prop_map(|v| v.into_iter().collect()),
     ]
 }
@@ -173,6 +183,20 @@ fn roundtrip_case(c: &Claims, acc: &mut Acc) -> R {
             }
         }
     }
+    // the same claims embedded in an application struct with #[serde(flatten)] (the only way to add
+    // application claims): every registered claim survives the round trip there too
+    {
+        #[derive(serde::Serialize, serde::Deserialize)]
+        struct App {
+            #[serde(flatten)]
+            registered: RegisteredClaims,
+            role: String,
+        }
+        let mut w2 = Vec::new();
+        Payload::encode(Json(App { registered: claims.clone(), role: "admin".into() }), &mut w2).map_err(|e| Fail::new("C14/claims/flatten-encode-failed", format!("{e}")))?;
+        let back2 = <Json<App> as Payload>::decode(&w2).map_err(|e| Fail::new("C14/claims/flatten-decode-failed", format!("{e}: {}", String::from_utf8_lossy(&w2).chars().take(160).collect::<String>())))?;
+        ensure!(same(&back2.0.registered, &claims) && back2.0.role == "admin", "C14/claims/flatten-roundtrip-differs", "RegisteredClaims embedded with #[serde(flatten)] does not round-trip: wire {}", String::from_utf8_lossy(&w2).chars().take(200).collect::<String>());
+    }
     acc.eval();
     let n_present = present.len();
     if n_present >= 1 && n_present <= 6 {
@@ -287,7 +311,36 @@ fn text_strategy() -> impl Strategy<Value = TextCase> {
         1 => Just(MemberVal::Arr),
         1 => Just(MemberVal::Obj),
     ];
-    proptest::collection::vec((key, val, prop_oneof![5 => Just(0u8), 1 => Just(1u8), 1 => Just(2u8), 1 => Just(3u8)]), 0..10).prop_map(|ms| TextCase { spell: ms.iter().map(|m| m.2).collect(), members: ms.into_iter().map(|m| (m.0, m.1)).collect() })
+    let general = proptest::collection::vec((key, val, prop_oneof![5 => Just(0u8), 1 => Just(1u8), 1 => Just(2u8), 1 => Just(3u8)]), 0..10).prop_map(|ms| TextCase { spell: ms.iter().map(|m| m.2).collect(), members: ms.into_iter().map(|m| (m.0, m.1)).collect() });
+    // every registered claim present once, in any order, with 0..4 unknown members anywhere (also last):
+    // what a foreign issuer's full token looks like
+    let stamp2 = || (2000u16..=2100, 1u8..=12, 1u8..=28, 0u8..24, 0u8..60, 0u8..60).prop_map(|(y, mo, d, h, mi, s)| MemberVal::Stamp { y, mo, d, h, mi, s, frac_digits: 0, frac: 0, off_min: 0, zulu: true });
+    let full = (string_strategy(), string_strategy(), string_strategy(), string_strategy(), stamp2(), stamp2(), stamp2(), proptest::collection::vec((prop::sample::select(vec!["data", "role", "zzz", "a"]), any::<u8>()), 0..4), any::<u64>()).prop_map(|(iss, sub, aud, jti, exp, nbf, iat, extras, order)| {
+        let mut members: Vec<(String, MemberVal)> = vec![
+            ("iss".into(), MemberVal::Str(iss)),
+            ("sub".into(), MemberVal::Str(sub)),
+            ("aud".into(), MemberVal::Str(aud)),
+            ("jti".into(), MemberVal::Str(jti)),
+            ("exp".into(), exp),
+            ("nbf".into(), nbf),
+            ("iat".into(), iat),
+        ];
+        // a deterministic shuffle
+        let mut o = order;
+        for i in (1..members.len()).rev() {
+            o = o.wrapping_mul(6364136223846793005).wrapping_add(1442695040888963407);
+            members.swap(i, (o >> 33) as usize % (i + 1));
+        }
+        let mut seen = std::collections::BTreeSet::new();
+        for (k, pos) in extras {
+            if seen.insert(k) {
+                let at = (pos as usize) % (members.len() + 1);
+                members.insert(at, (k.to_string(), MemberVal::Num(pos as i64)));
+            }
+        }
+        TextCase { spell: vec![0; members.len()], members }
+    });
+    prop_oneof![5 => general, 1 => full]
 }
 
 const STRING_CLAIMS: [&str; 4] = ["iss", "sub", "aud", "jti"];
@@ -590,7 +643,7 @@ pub fn def() -> PropertyDef {
     PropertyDef {
         id: "C14",
         level: "exploration",
-        rule: "(a) proptest RegisteredClaims (7 fields absent/present; strings over all of Unicode incl. NUL, quotes, backslash, U+2028, surrogate-adjacent code points, U+10FFFF; timestamps over jiff's range at ns resolution): decode(encode(c)) == c field-wise, the wire form parses with serde_json::Value to an object whose member set is exactly the present claims, strings byte for byte, timestamps (years 0000..9999) accepted by an own strict RFC 3339 reader and denoting the same instant; (b) generated JSON object texts (registered and look-alike keys, member names spelled plainly or with \\uXXXX escapes, strings, nulls, wrong types, nested objects re-using claim names, timestamps written from civil components with 0-9 fraction digits and numeric offsets, arbitrary order, duplicates): when decode succeeds every registered claim equals what a generic parser reads for that member (last duplicate; instants computed by the generator, not by jiff); objects with well-typed members, no duplicates and arbitrary extras must decode; JSON texts that are not objects (arrays of 0..9 elements incl. elements that would fit the seven claims positionally, scalars, strings) never decode to any claim; (c) Json<T> payload/footer equal serde_json::to_vec / from_slice on generated Value trees and a typed struct; empty Json footer is an error; (d) histories on one thread mixing encodes / decodes that fail (a Serialize impl failing after it emitted output, non-string map keys, truncated JSON) with checked encodes and decodes: a failed operation leaves nothing behind. Non-trivial iff 1..6 fields present / an extra, duplicate or >= 2 members / a container value",
+        rule: "(a) proptest RegisteredClaims (7 fields absent/present; strings over all of Unicode incl. long runs of 200..5000 characters, NUL, quotes, backslash, U+2028, surrogate-adjacent code points, U+10FFFF; timestamps over jiff's range at ns resolution): decode(encode(c)) == c field-wise (also when embedded in an application struct with #[serde(flatten)]), the wire form parses with serde_json::Value to an object whose member set is exactly the present claims, strings byte for byte, timestamps (years 0000..9999) accepted by an own strict RFC 3339 reader and denoting the same instant; (b) generated JSON object texts (registered and look-alike keys, member names spelled plainly or with \\uXXXX escapes, strings, nulls, wrong types, nested objects re-using claim names, timestamps written from civil components with 0-9 fraction digits and numeric offsets, arbitrary order, duplicates): when decode succeeds every registered claim equals what a generic parser reads for that member (last duplicate; instants computed by the generator, not by jiff); objects with well-typed members, no duplicates and arbitrary extras must decode (incl. objects with all seven claims present in any order and unknown members before, between and after them); JSON texts that are not objects (arrays of 0..9 elements incl. elements that would fit the seven claims positionally, scalars, strings) never decode to any claim; (c) Json<T> payload/footer equal serde_json::to_vec / from_slice on generated Value trees and a typed struct; empty Json footer is an error; (d) histories on one thread mixing encodes / decodes that fail (a Serialize impl failing after it emitted output, non-string map keys, truncated JSON) with checked encodes and decodes: a failed operation leaves nothing behind. Non-trivial iff 1..6 fields present / an extra, duplicate or >= 2 members / a container value",
         assumptions: vec!["leap seconds (:60) are not generated (jiff clamps them; the generator's own arithmetic would not)", "negative and 5-digit years are checked for round-trip only (outside RFC 3339)"],
         subs,
     }
